@@ -242,6 +242,22 @@ Fixpoint expected_seen (kv : bool) (g : gh) (tr : trace) : list (list N) :=
 Definition seen (tr : trace) : list (list N) :=
   flat_map (fun s => match o_filter (snd s) with Some v => [v] | None => [] end) tr.
 
+(* final ghost state, and the side condition of the corollary that relates prev_tokens to the
+   plain concatenation of everything submitted: no with_prompt / clear_prompt discards a
+   produced token that is still pending (such a token stays in the history although the model
+   never receives it) *)
+Definition hist_final (kv : bool) (tr : trace) : gh := fold_left (hist_step kv) tr ([], []).
+Definition nodrop_step (g : gh) (s : op * obs) : bool :=
+  match fst s with
+  | OpW _ | OpC => forallb (fun x => negb (snd x)) (fst g)
+  | _ => true
+  end.
+Fixpoint nodrop (kv : bool) (g : gh) (tr : trace) : bool :=
+  match tr with
+  | [] => true
+  | s :: r => nodrop_step g s && nodrop kv (hist_step kv g s) r
+  end.
+
 (* ---- boolean equality ---- *)
 Fixpoint list_eqb {A} (e : A -> A -> bool) (x y : list A) : bool :=
   match x, y with
